@@ -34,7 +34,7 @@ func main() {
 		if len(os.Args) < 4 {
 			usage()
 		}
-		os.Exit(cmdCheck([]string{os.Args[2]}, os.Args[3]))
+		os.Exit(cmdCheck(strings.Split(os.Args[2], ","), os.Args[3]))
 	case "all":
 		tier := "quick"
 		if len(os.Args) > 2 {
